@@ -723,6 +723,18 @@ func (w *World) lookupFnSpec(name string) (string, int, *ssa.Function) {
 		}
 		f := w.Funcs[ct.Name]
 		if f == nil {
+			// a std-library function under an assumed `function` contract: pkg.Func
+			if i := strings.LastIndex(ct.Name, "."); i > 0 && !strings.Contains(ct.Name, "(") {
+				for _, pk := range w.Prog.AllPackages() {
+					if pk.Pkg.Path() == ct.Name[:i] || pk.Pkg.Name() == ct.Name[:i] {
+						if fn := pk.Func(ct.Name[i+1:]); fn != nil {
+							f = fn
+						}
+					}
+				}
+			}
+		}
+		if f == nil {
 			continue
 		}
 		for k := 0; k < f.Signature.Results().Len(); k++ {
@@ -736,8 +748,18 @@ func (w *World) lookupFnSpec(name string) (string, int, *ssa.Function) {
 
 func (fx *FnExec) declareFnSpec(f *ssa.Function) {
 	var as []string
-	for _, p := range f.Params {
-		as = append(as, fx.sortOf(p.Type()))
+	if len(f.Params) > 0 || f.Signature.Params().Len() == 0 && f.Signature.Recv() == nil {
+		for _, p := range f.Params {
+			as = append(as, fx.sortOf(p.Type()))
+		}
+	} else {
+		// no body (std library): the signature gives the parameters
+		if r := f.Signature.Recv(); r != nil {
+			as = append(as, fx.sortOf(r.Type()))
+		}
+		for i := 0; i < f.Signature.Params().Len(); i++ {
+			as = append(as, fx.sortOf(f.Signature.Params().At(i).Type()))
+		}
 	}
 	for k := 0; k < f.Signature.Results().Len(); k++ {
 		fx.declareFun(fnSpecName(f, k), as, fx.sortOf(f.Signature.Results().At(k).Type()))
